@@ -79,6 +79,58 @@ function* gen(me, a, b) { try { yield 1; } finally { try { drive(me, 0); } catch
 		expect: []string{"R0 {#1 value:d:3ff0000000000000,done:b:false}", "Td0 E:TypeError", "L s:6:caught E:TypeError",
 			"R1 {#2 value:d:401c000000000000,done:b:true}", "R2 {#3 value:u,done:b:true}"},
 	},
+	{ // inbox/C09-stack-ref-not-rebased-on-resume.md
+		name: "stack-ref-rebase",
+		src: `var REOPS = []; var AWMODE = [];
+function* gen(me, a, b) { let x = 0; x ||= (yield 1); let y = 3; y &&= (yield x); yield [x, y]; }`,
+		hist:   []genref.Op{{Slot: 0, Kind: "next", Val: 0}, {Slot: 0, Kind: "next", Val: 2}, {Slot: 0, Kind: "next", Val: 3}, {Slot: 0, Kind: "next", Val: 0}},
+		create: [2][2]int{{1, 2}, {1, 2}},
+		ctxA:   tops(5), ctxB: []ctxSpec{top(), cx("js", "sort", "deep"), top(), cx("js", "map", "args"), top()},
+		expect: []string{"R0 {#1 value:d:3ff0000000000000,done:b:false}", "R1 {#2 value:d:401c000000000000,done:b:false}",
+			"R2 {#3 value:[#4 d:401c000000000000,s:2:s1],done:b:false}", "R3 {#5 value:u,done:b:true}"},
+	},
+	{ // inbox/C09-return-throwing-iterator-close-leaves-executing.md
+		name: "return-iterator-close-throws-state",
+		src: `var REOPS = []; var AWMODE = [];
+function* gen(me, a, b) { try { throw 1; } catch (e) { for (let x of mkIter(me, 4, 3, 3, 0, -1, 0)) { yield x; } } }`,
+		hist:   []genref.Op{{Slot: 0, Kind: "next", Val: 0}, {Slot: 0, Kind: "return", Val: 8}, {Slot: 0, Kind: "next", Val: 0}},
+		create: [2][2]int{{1, 2}, {1, 2}},
+		ctxA:   tops(4), ctxB: []ctxSpec{top(), top(), cx("js", "forof"), cx("gotop")},
+		expect: []string{"L s:2:I4", "L s:2:N4 d:0000000000000000 u", "R0 {#1 value:d:4079100000000000,done:b:false}",
+			"L s:2:R4 d:0000000000000000 u", "T1 E:TypeError", "R2 {#2 value:u,done:b:true}"},
+	},
+	{ // inbox/C09-nested-return-completions.md
+		name: "nested-return-completions",
+		src: `var REOPS = []; var AWMODE = [];
+function* gen(me, a, b) { try { yield 1; } finally { try { try { yield 2; } catch (e) { } finally { yield 3; } } catch (e) { log("c", e); } L: try { yield 4; } finally { break L; } yield 5; } }`,
+		hist: []genref.Op{{Slot: 0, Kind: "next", Val: 0}, {Slot: 0, Kind: "return", Val: 3}, {Slot: 0, Kind: "return", Val: 4}, {Slot: 0, Kind: "throw", Val: 2},
+			{Slot: 0, Kind: "return", Val: 8}, {Slot: 0, Kind: "next", Val: 0}},
+		create: [2][2]int{{1, 2}, {1, 2}},
+		ctxA:   tops(7), ctxB: []ctxSpec{top(), top(), cx("js", "getter"), cx("js", "gen"), cx("gonext", "tryf"), top(), cx("gotop")},
+		expect: []string{"R0 {#1 value:d:3ff0000000000000,done:b:false}", "R1 {#2 value:d:4000000000000000,done:b:false}", "R2 {#3 value:d:4008000000000000,done:b:false}",
+			"L s:1:c d:401c000000000000", "R3 {#4 value:d:4010000000000000,done:b:false}", "R4 {#5 value:d:4014000000000000,done:b:false}", "R5 {#6 value:s:2:s1,done:b:true}"},
+	},
+	{ // inbox/C09-throw-out-of-nested-returning-finally-blocks.md
+		name: "throw-out-of-nested-returning-finally",
+		src: `var REOPS = []; var AWMODE = [];
+function* gen(me, a, b) { try { try { yield 1; } finally { try { yield 2; } finally { log("f2"); [...(yield 3)]; } } } catch (e) { log("c", e); } finally { log("fin"); } return 9; }`,
+		hist: []genref.Op{{Slot: 0, Kind: "next", Val: 0}, {Slot: 0, Kind: "return", Val: 3}, {Slot: 0, Kind: "return", Val: 4}, {Slot: 0, Kind: "next", Val: 0},
+			{Slot: 0, Kind: "next", Val: 0}},
+		create: [2][2]int{{1, 2}, {1, 2}},
+		ctxA:   tops(6), ctxB: []ctxSpec{top(), top(), cx("js", "apply"), cx("js", "ctor"), cx("gonext", "spread"), top()},
+		expect: []string{"R0 {#1 value:d:3ff0000000000000,done:b:false}", "R1 {#2 value:d:4000000000000000,done:b:false}", "L s:2:f2", "R2 {#3 value:d:4008000000000000,done:b:false}",
+			"L s:1:c E:TypeError", "L s:3:fin", "R3 {#4 value:d:4022000000000000,done:b:true}", "R4 {#5 value:u,done:b:true}"},
+	},
+	{ // inbox/C09-property-key-minus-sign-panics.md (C01 class, found through a computed destructuring key)
+		name: "property-key-minus",
+		src: `var REOPS = []; var AWMODE = [];
+function* gen(me, a, b) { var {["-"]: v = 5, [` + "`-${\"\"}`" + `]: w = (yield a)} = (yield b); yield [v, w]; }`,
+		hist:   []genref.Op{{Slot: 0, Kind: "next", Val: 0}, {Slot: 0, Kind: "next", Val: 3}, {Slot: 0, Kind: "next", Val: 2}},
+		create: [2][2]int{{1, 2}, {1, 2}},
+		ctxA:   tops(4), ctxB: []ctxSpec{top(), cx("js", "tostr"), cx("gonext", "forEach"), cx("js", "ref")},
+		expect: []string{"R0 {#1 value:d:401c000000000000,done:b:false}", "R1 {#2 value:d:3ff0000000000000,done:b:false}",
+			"R2 {#3 value:[#4 d:4014000000000000,d:401c000000000000],done:b:false}"},
+	},
 }
 
 func pinnedCase(i int) *caseT {
